@@ -330,8 +330,11 @@ def natural_rekey(ctx, pid, quick):
     configs = [(5, 3, 1, 0), (16, 5, 8, 2), (4, 4, 3, 0)] if quick else \
         [(5, 3, 1, 0), (1, 1, 0, 0), (16, 5, 8, 2), (4, 4, 3, 0),
          (64, 32, 100, 25)]
-    per = 14 if quick else 120
-    modes = ['mixed rekey', 'whole rekey nopi', 'tiny rekey', 'stall rekey']
+    per = 16 if quick else 160
+    # 'reent': the writing sessions write (and end the stream) from inside
+    # their resume_writing() callback
+    modes = ['mixed rekey', 'whole rekey nopi', 'tiny rekey', 'stall rekey',
+             'mixed reent', 'whole reent nopi', 'tiny reent', 'reent rekey']
     n = 0
     for ci, (iw, pk, hi, lo) in enumerate(configs):
         for i in range(per):
@@ -342,7 +345,7 @@ def natural_rekey(ctx, pid, quick):
             r = channel.record_natural(**args)
             n += 1
             ctx.count(('natural-rekey', iw, pk, i), nontrivial=True)
-            mine = [c for c in r['l1'] if c.startswith(pid)]
+            mine = [c for c in r['l1'] if c.startswith((pid, 'HonestNoError'))]
             if mine:
                 ctx.violation({'module': 'ChannelNatural', 'rekey': True,
                                'clauses': sorted({c.split(':')[0]
